@@ -59,6 +59,7 @@ class NodeDomain(ObjectDomain):
     # The recursive utilities are generators over a symbolic tree: a recursive call is answered by the induction
     # hypothesis (what it yields for a child), which needs the whole body of a generator run at its call.
     lazy_generators = False
+    strict_comprehensions = False   # (the nodes are symbolic: a comprehension over one is "some ids", which the rules read as such)
 
     def __init__(self, classes, kind, children=(X, Y), stubs=None, **kw):
         suite, plain, has_id, has_filter, has_sort = KINDS[kind]
